@@ -187,6 +187,7 @@ func decryptPayload(keys [][]byte, msg []byte, data []byte) ([]byte, error) {
 	}
 
 	for _, key := range keys {
+		verifYield("decryptkey", nil)
 		plain, err := decryptMessage(key, msg, data)
 		if err == nil {
 			// Remove the PKCS7 padding for vsn 0
